@@ -295,19 +295,24 @@ def s_configs(ctx):
     for name, p in base:
         for kind in ('cluster', 'session'):
             for server in ('ok', 'refuse'):
-                if server == 'refuse' and name == 'legacyspawn' and not ctx.thorough:
-                    continue        # the refusal marks the node down: a long cascade (about 6000 executions each)
-                out.append((dict(p, scenario=name, kind=kind, server=server), 1, None))
+                if not ctx.thorough and ((server == 'refuse' and name == 'legacyspawn') or
+                                         (kind == 'session' and server == 'ok' and name in ('probe', 'control', 'legacyspawn'))):
+                    # thorough only: the refusal marks the node down, a long cascade (about 6000 executions each);
+                    # Session.shutdown() against the cluster-level tasks (3700 / 4700 executions) and the v2 pool (2200)
+                    continue
+                # quick: the long control-connection reconnect task only with switches at blocking points (bound 0)
+                bound = 0 if (name == 'control' and server == 'ok' and not ctx.thorough) else 1
+                out.append((dict(p, scenario=name, kind=kind, server=server), bound, None))
     if ctx.thorough:
         for name, p in base:
             for kind in ('cluster', 'session'):
-                out.append((dict(p, scenario=name, kind=kind, server='ok', workers=2), 1, None))
+                out.append((dict(p, scenario=name, kind=kind, server='ok', workers=2), 1, 60))
     # Cluster.connect() in one client thread, Cluster.shutdown() in another, from an unconnected cluster
     for order in ((1, -1) if ctx.thorough else (1,)):
         out.append((dict(scenario='connect', kind='cluster', server='ok', race_connect=True, future_order=order),
                     0, None))
     if ctx.thorough:
-        out.append((dict(scenario='connect', kind='cluster', server='ok', race_connect=True, future_order=1), 1, 150))
+        out.append((dict(scenario='connect', kind='cluster', server='ok', race_connect=True, future_order=1), 1, 100))
     return out
 
 
